@@ -9,6 +9,13 @@ from ..script import Case, gen_bytes
 
 RES_VARIANTS = ["D", "D-rng", "D-dh", "D-cipher", "D-hash", "Ronly", "R", "DR"]
 LACK = {"D-rng": "Init(GetRngImpl)", "D-dh": "Init(GetDhImpl)", "D-cipher": "Init(GetCipherImpl)", "D-hash": "Init(GetHashImpl)", "Ronly": "Init(GetDhImpl)"}
+# composed resolvers: the primitive is provided iff at least one member provides it
+for _k, _e in (("rng", "Init(GetRngImpl)"), ("dh", "Init(GetDhImpl)"), ("cipher", "Init(GetCipherImpl)"), ("hash", "Init(GetHashImpl)")):
+    RES_VARIANTS += ["fb(D-%s|D)" % _k, "fb(D|D-%s)" % _k, "fb(D-%s|D-%s)" % (_k, _k), "fb(D-%s|fb(D-%s|D))" % (_k, _k)]
+    LACK["fb(D-%s|D-%s)" % (_k, _k)] = _e
+RES_VARIANTS += ["fb(Ronly|D-dh)", "fb(D-dh|Ronly)", "fb(Ronly|D)"]
+LACK["fb(Ronly|D-dh)"] = "Init(GetDhImpl)"
+LACK["fb(D-dh|Ronly)"] = "Init(GetDhImpl)"
 
 
 def mod_variants(pattern):
